@@ -231,7 +231,15 @@ func run() int {
 	fmt.Sscan(os.Getenv("VERIF_SEED"), &seed)
 
 	pkgDir := "pfcpiface"
-	prog, pkg, err := loadProgram(pkgDir, genTable(pkgDir))
+	extra := genTable(pkgDir)
+	if p4, err := genP4Info(pkgDir); err == nil {
+		for k, v := range p4 {
+			extra[k] = v
+		}
+	} else {
+		die(2, "cannot regenerate the P4Info literal: %v", err)
+	}
+	prog, pkg, err := loadProgram(pkgDir, extra)
 	if err != nil {
 		die(2, "cannot load %s: %v", *repoDir, err)
 	}
@@ -334,6 +342,20 @@ func run() int {
 			for _, r := range res.Inconclusive {
 				fmt.Fprintf(os.Stderr, "   inconclusive: %s\n", r)
 			}
+			if len(res.Sites) > 0 {
+				type kv struct {
+					k string
+					v int
+				}
+				var l []kv
+				for k, v := range res.Sites {
+					l = append(l, kv{k, v})
+				}
+				sort.Slice(l, func(a, b int) bool { return l[a].v > l[b].v })
+				for j := 0; j < len(l) && j < 25; j++ {
+					fmt.Fprintf(os.Stderr, "   site %7d %s\n", l[j].v, l[j].k)
+				}
+			}
 			for _, v := range res.Violations {
 				fmt.Fprintf(os.Stderr, "   candidate: %s %s [%s] tags=%v at %s\n", v.Kind, v.Label, v.Msg, v.Tags, v.Site)
 			}
@@ -398,6 +420,18 @@ func run() int {
 		}
 	}
 
+	// ---- C16: generated constants (plain precondition, not a solver obligation)
+	var constantsNote map[string]interface{}
+	if *prop == "C16" && *only == "" {
+		ok, note, diffPath := checkGeneratedConstants()
+		constantsNote = note
+		if !ok {
+			fmt.Printf("VIOLATION property=C16 replay=%s\n", diffPath)
+			fmt.Printf("  internal/p4constants/p4constants.go differs from what cmd/p4info_code_gen derives from conf/p4/bin/p4info.txt, or the generator is not deterministic\n")
+			exit = 1
+		}
+	}
+
 	// ---- evidence
 	var fl []string
 	for k, v := range funcs {
@@ -454,6 +488,9 @@ func run() int {
 	}
 	if totalPaths == 0 {
 		ev.Coverage["states"] = 0
+	}
+	if constantsNote != nil {
+		ev.Coverage["generated_constants_precondition"] = constantsNote
 	}
 	os.MkdirAll(filepath.Join(*verifDir, "evidence"), 0o755)
 	b, _ := json.MarshalIndent(ev, "", " ")
@@ -573,4 +610,52 @@ func genTable(pkgDir string) map[string][]byte {
 	}
 	sb.WriteString("}\n")
 	return map[string][]byte{filepath.Join(*repoDir, pkgDir, "zz_verif_table.go"): []byte(sb.String())}
+}
+
+// checkGeneratedConstants runs cmd/p4info_code_gen twice on the shipped
+// P4Info and compares the (gofmt-ed) output with the committed constants.
+func checkGeneratedConstants() (bool, map[string]interface{}, string) {
+	tmp, err := os.MkdirTemp("", "verif-c16-")
+	if err != nil {
+		return false, map[string]interface{}{"error": err.Error()}, ""
+	}
+	defer os.RemoveAll(tmp)
+	gen := func(out string) error {
+		cmd := exec.Command("go", "run", "./cmd/p4info_code_gen/p4info_code_gen.go", "-output", out, "-p4info", "conf/p4/bin/p4info.txt")
+		cmd.Dir = *repoDir
+		cmd.Env = append(os.Environ(), "GOFLAGS=-mod=mod", "GOPROXY=off", "GOSUMDB=off", "GOTOOLCHAIN=local")
+		b, err := cmd.CombinedOutput()
+		if err != nil {
+			return fmt.Errorf("%v: %s", err, tail(string(b), 400))
+		}
+		return nil
+	}
+	a, b := filepath.Join(tmp, "a.go"), filepath.Join(tmp, "b.go")
+	note := map[string]interface{}{"what": "cmd/p4info_code_gen run twice on conf/p4/bin/p4info.txt; outputs compared with each other and (after gofmt) with internal/p4constants/p4constants.go"}
+	if err := gen(a); err != nil {
+		note["error"] = err.Error()
+		return false, note, ""
+	}
+	if err := gen(b); err != nil {
+		note["error"] = err.Error()
+		return false, note, ""
+	}
+	ra, _ := os.ReadFile(a)
+	rb, _ := os.ReadFile(b)
+	note["deterministic"] = string(ra) == string(rb)
+	fa, err := exec.Command("gofmt", a).Output()
+	if err != nil {
+		note["error"] = "gofmt: " + err.Error()
+		return false, note, ""
+	}
+	committed, _ := os.ReadFile(filepath.Join(*repoDir, "internal", "p4constants", "p4constants.go"))
+	note["equals_committed"] = string(fa) == string(committed)
+	ok := string(ra) == string(rb) && string(fa) == string(committed)
+	diffPath := ""
+	if !ok {
+		diffPath = filepath.Join(*verifDir, "replays", "C16", "generated-constants.go")
+		os.MkdirAll(filepath.Dir(diffPath), 0o755)
+		os.WriteFile(diffPath, fa, 0o644)
+	}
+	return ok, note, diffPath
 }
